@@ -14,7 +14,7 @@ CFG = {
     "level_note": "Trusted: Lean kernel; my transcription of the CNB formats (Spec/CnbSchemas.lean) and of what a call sequence means (Spec/Written.lean); "
                   "`encode`/`decode` as the meaning of a serde-derived type; translator; harness; tools/toml2tree.py (tomllib). Not modelled: the toml "
                   "crate's text printer - 'valid TOML 1.0' and string escaping are established per sampled document by tomllib accepting the bytes and "
-                  "returning the model's tree, not by proof. HashMap collection for exec.d (last value per key) is modelled and sampled, not proved.",
+                  "returning the model's tree, not by proof. HashMap collection for exec.d (last value per key) is modelled and sampled, not proved. write_toml_file's file handling (truncation) is not modelled: it is exercised by writing every document over pre-existing files. uriparse's grammar is modelled for the corpus' schemes only (uriRespell).",
     "shrink": [(1, "|"), (1, ",")],
     "rule": "exhaustive: every BuildPlanBuilder call sequence over {provides, requires, or} of length <= 5 (quick) / 7 (thorough); every payload "
             "string (29: quotes, backslashes, control characters, newlines, Unicode incl. astral/combining/BOM, empty, TOML-syntax look-alikes) in "
@@ -22,6 +22,11 @@ CFG = {
             "combinations x 3 metadata shapes. Then seeded sampling (2400 quick / 40000 thorough) over launch builder call sequences (<= 6 "
             "process/label/slice calls, <= 5 ProcessBuilder calls each incl. repeated default / working_directory), build plan sequences (<= 8 "
             "calls, nested metadata tables with every TOML value kind), layer metadata, store, exec.d pairs incl. duplicate keys, package.toml. "
+            "Every document that goes through write_toml_file is written on a fresh path AND over a pre-existing file at the same path: 64 KiB "
+            "longer garbage, a longer valid document of the same type with extra keys, the same document, a shorter one, an empty file (tag pre=); "
+            "the tomllib reading must recover the constructed value in all six. package.toml URIs: 18 spellings delivered verbatim incl. 10 not in "
+            "RFC 3986 normal form (upper-case host / unregistered scheme, dot segments, percent-encoded unreserved characters, trailing host dot, "
+            "userinfo) + 7 spellings uriparse re-prints (known finding C07-F4, tagged uri_class=respelled), each once exhaustively and sampled. "
             "non-trivial = a plan with >= 1 or() or metadata, a launch with >= 1 process, non-empty exec.d, any layer/store/package/payload case; "
             "distinct = distinct input line",
     "exhaustive": True,
